@@ -209,6 +209,10 @@ func (s c04Spec) filters(k *model.KindDesc) []c04Filter {
 		}, eval: func(m *c04Model, sel map[uint32]bool, first bool) (map[uint32]bool, bool) {
 			return nval(m, sel, func(v model.Val) bool { return k.AsInt(v) > 1 }), true
 		}},
+		c04Filter{name: "WithValue(n,always)", apply: func(t *column.Txn) { t.WithValue("n", func(v interface{}) bool { return true }) },
+			eval: func(m *c04Model, sel map[uint32]bool, first bool) (map[uint32]bool, bool) {
+				return nval(m, sel, func(model.Val) bool { return true }), true
+			}},
 		c04Filter{name: "WithValue(zz)", apply: func(t *column.Txn) { t.WithValue("zz", func(v interface{}) bool { return true }) }, eval: empty},
 		c04Filter{name: "WithInt(n,>1)", apply: func(t *column.Txn) { t.WithInt("n", func(v int64) bool { return v > 1 }) },
 			eval: func(m *c04Model, sel map[uint32]bool, first bool) (map[uint32]bool, bool) {
@@ -445,7 +449,7 @@ func init() {
 		Prop:  "C04",
 		Level: "model_checking",
 		Rule: "layouts = every history up to depth d1 over {insert full / partial / without the filtered column / empty, overwrite, delete first / last row (offset reuse)} on presets " +
-			"{empty, word-edge, block-edge, sparse-3}; at every layout EVERY filter chain up to length L over 34 filter steps (With/Without/Union x {index A, index B, value column, " +
+			"{empty, word-edge, block-edge, sparse-3}; at every layout EVERY filter chain up to length L over 35 filter steps (With/Without/Union x {index A, index B, value column, " +
 			"bool column, string column, missing name}, WithUnion pairs and singles, WithValue/WithInt/WithUint/WithFloat/WithString incl. wrong-type and missing columns) is run on a real " +
 			"transaction and compared with set algebra on the model: selection, Count, Range order/cursor/readers, Sum/Avg/Min/Max over the selected rows holding a value; per numeric kind",
 		Assumptions: []string{
@@ -455,9 +459,9 @@ func init() {
 		Budget: budget(170*time.Second, 28*time.Minute),
 		Bounds: func(tier string) map[string]any {
 			if tier == "quick" {
-				return map[string]any{"d1": "3 (empty), 2 (sparse-3, word-edge), 1 (block-edge)", "L": "2 (all kinds), 3 (int, d1=2), 1 (block-edge)", "filter_steps": 34}
+				return map[string]any{"d1": "3 (empty), 2 (sparse-3, word-edge), 1 (block-edge)", "L": "2 (all kinds), 3 (int, d1=2), 1 (block-edge)", "filter_steps": 35}
 			}
-			return map[string]any{"d1": 3, "L": "3 (int on empty/sparse-3), 2 (other kinds), 1 (block-edge)", "filter_steps": 34}
+			return map[string]any{"d1": 3, "L": "3 (int on empty/sparse-3), 2 (other kinds), 1 (block-edge)", "filter_steps": 35}
 		},
 		Units: func(tier string) (units []eng.Unit) {
 			var specs []c04Spec
